@@ -30,7 +30,7 @@ from ahbicht.expressions.package_expansion import PackageResolver
 from ahbicht.models.condition_nodes import EvaluatedFormatConstraint
 from ahbicht.models.mapping_results import PackageKeyConditionExpressionMapping
 from vstat_ext import (vstat_astimezone, vstat_component, vstat_offset_equals, vstat_same_wallclock, vstat_text,
-                       vstat_unsupported)
+                       vstat_time_replace, vstat_unsupported)
 
 
 class StubRcEvaluator(RcEvaluator):
@@ -116,6 +116,9 @@ class AbstractTime:
 
     def __eq__(self, other):
         return vstat_same_wallclock(self, other)
+
+    def replace(self, **kwargs):
+        return vstat_time_replace(self, kwargs)
 
     def __str__(self):
         return vstat_text("time")
